@@ -99,7 +99,9 @@ PROPS["C04"] = {
     "lean_modules": ["BurrowVerif.Props.C04"],
     "props_files": ["BurrowVerif/Props/C04.lean"],
     "anchors": ["core/internal/evaluator/caching.go", "core/protocol/evaluator.go"],
-    "streams": [dict(_STORAGE_STREAM, keys={"gs", "complete", "count", "total", "maxlag", "parts"})],
+    "streams": [dict(_STORAGE_STREAM, keys={"gs", "complete", "count", "total", "maxlag", "parts"}),
+                {"name": "evalcache", "keys": None, "spec_tags": [], "trivial": r"^(ok.*|rc=\S+ rg=\S+ gs=0 .*)$", "hist_keys": ["path"],
+                 "scale": {"quick": 1, "thorough": 6}, "seeds": {"quick": 1, "thorough": 2}}],
     "rule": _STORAGE_RULE + " The 'status' op builds a fresh CachingEvaluator (empty cache) on the current real storage and requests the group status in the full or the problems-only view with minimum-complete in {0, 0.3, 0.5, 1} and allowed-lag in {0, 1, 5, 100}; groups mix partitions without commits, owner-only partitions, partial and full windows and lag ties.",
     "trusted": [
         "float32 completeness values are carried as (numerator, denominator) pairs in the theorems and compared as IEEE bit patterns in the correspondence (exact emulation in the driver)",
@@ -189,8 +191,12 @@ PROPS["C09"] = {
     "lean_modules": ["BurrowVerif.Props.C09"],
     "props_files": ["BurrowVerif/Props/C09.lean"],
     "anchors": ["core/internal/storage/inmemory.go"],
-    "streams": [dict(_STORAGE_STREAM, keys={"list", "offs", "win", "lag", "own", "bro", "gs", "parts", "count"})],
-    "rule": _STORAGE_RULE + " After every deletion of any kind all six fetch kinds are issued for every known cluster, group and topic (the frame condition, observed); expire-group 1/5 s cases place commit times on and around the expiry boundary and age the store by time shifting.",
+    "streams": [dict(_STORAGE_STREAM, keys={"list", "offs", "win", "lag", "own", "bro", "gs", "parts", "count"}),
+                {"name": "conc", "keys": None, "trivial": r"^ok$", "hist_keys": [],
+                 "scale": {"quick": 1, "thorough": 4}, "seeds": {"quick": 1, "thorough": 2}}],
+    "rule": _STORAGE_RULE + " Stream conc (shared with C08): the module's real worker pool; in the 'ordered' batches every group's requests — commits, owner updates, deletions, detail reads — come from one "
+            "lane, so each group's outcome is determined by its submission order and is compared with the model: a deletion that overtakes an earlier commit of its group shows as a resurrected group."
+            " After every deletion of any kind all six fetch kinds are issued for every known cluster, group and topic (the frame condition, observed); expire-group 1/5 s cases place commit times on and around the expiry boundary and age the store by time shifting.",
     "trusted": [
         "a status query is answered through the evaluator cache, whose permitted staleness is C05's subject: here status is evaluated by a fresh evaluator on the current storage",
         "the corner 'delete-group-topic on a group left with no topics removes the group, also when the topic was not among them' is what the code does and what deleteGroupTopic_removes states",
@@ -251,7 +257,7 @@ PROPS["C16"] = {
     "lean_modules": ["BurrowVerif.Props.C16"],
     "props_files": ["BurrowVerif/Props/C16.lean"],
     "anchors": ["core/internal/httpserver/coordinator.go", "core/internal/httpserver/kafka.go", "core/internal/httpserver/config.go", "core/internal/httpserver/structs.go"],
-    "streams": [dict(_HTTP_STREAM, keys={"code", "ct", "err", "hdr", "kind", "key"}, spec_tags=["D15", "D18"])],
+    "streams": [dict(_HTTP_STREAM, keys=None, spec_tags=["D15", "D18"])],
     "rule": _HTTP_RULE,
     "trusted": [
         "httprouter is modelled by its documented contract (Model/Http.lean: route); for an unmatched path ending in '/' its answer (redirect or 404) depends on the shape of its radix tree and both are admitted",
@@ -264,8 +270,11 @@ PROPS["C17"] = {
     "lean_modules": ["BurrowVerif.Props.C17"],
     "props_files": ["BurrowVerif/Props/C17.lean"],
     "anchors": ["core/internal/httpserver/prometheus.go", "core/internal/httpserver/kafka.go", "core/internal/storage/inmemory.go", "core/protocol/storage.go", "core/protocol/evaluator.go"],
-    "streams": [dict(_HTTP_STREAM, keys=None, spec_tags=["D8"])],
-    "rule": _HTTP_RULE,
+    "streams": [dict(_HTTP_STREAM, keys=None, spec_tags=["D8"]),
+                {"name": "conc", "keys": None, "trivial": r"^ok$", "hist_keys": [],
+                 "scale": {"quick": 1, "thorough": 4}, "seeds": {"quick": 1, "thorough": 2}}],
+    "rule": _HTTP_RULE + " | stream conc (shared with C08/C09): the storage module's real worker pool; a deletion that overtakes an earlier commit of its group (wrong routing) shows as a group that "
+            "outlives its deletion.",
     "trusted": [
         "the Prometheus client library is modelled as a map from (vector, label values) to the last value set; the text exposition is parsed by the harness",
         "a status (JSON or metrics) is served through the evaluator cache: staleness within the cache lifetime is C05's allowance; 'nothing outlives its deletion' is claimed for reads after the lifetime",
